@@ -27,7 +27,7 @@ check("C09", "exploration",
       "Reference-model monitor with exact rational arithmetic: quantise_scale / reduced_quantise_scale over a float32 mantissa sweep, all exponents, boundaries and "
       "random doubles (as python float, np.float64, np.float32): multiplier/shift ranges, 2^-31 (2^-14) relative error, value equality with a port of TFLite "
       "QuantizeMultiplier, zeroing outside the hardware range; quantise_pooling_scale for every window 1..1024 (+sampled to 65536) against rounded division on all "
-      "reachable accumulators of small windows and ties beyond; add/sub/mul scale triples against the reference kernels' derivation." The emitted OFM_SCALE / OPA_SCALE / OPB_SCALE registers of ADD/SUB/MUL lists and of re-quantising average pools (fused QUANTIZE) are decoded from streams of the public generator and compared with the same derivations; packed scale records of real compilations likewise.,
+      "reachable accumulators of small windows and ties beyond; add/sub/mul scale triples against the reference kernels' derivation. The emitted OFM_SCALE / OPA_SCALE / OPB_SCALE registers of ADD/SUB/MUL lists and of re-quantising average pools (fused QUANTIZE) are decoded from streams of the public generator and compared with the same derivations; packed scale records of real compilations likewise.",
       "Own ports of QuantizeMultiplier and of the add/sub/mul parameter derivations (MUL set-valued over float/double arithmetic); average-pool rounding oracle is "
       "TFLite's (half away from zero), equal to round-half-up for non-negative accumulators.",
       "reference-model runtime monitor (exact arithmetic) on direct drive of the real functions", "DESIGN.md 4/C09")
@@ -36,7 +36,7 @@ check("C05", "exploration",
       "Contract on the real allocators: Greedy, LinearAlloc and HillClimb are driven through their real entry points with real Tensor/LiveRange/LiveRangeGraph "
       "objects over exhaustive small live-range sets (all ordered pairs, stratified/exhaustive triples), random 4-5 range sets and random sets of 20-600 ranges x "
       "memory limits x iteration limits; an O(n^2) oracle with inclusive end times checks disjointness, alignment, reported total and the HillClimb peak bound; a "
-      "hook on attempt_bottleneck_fix/allocate_indices asserts the iteration bound online; the same oracle wraps every allocator call of real compilations." LinearAlloc is also driven with duplicate constants (equal weight compression configs, equivalent lookup tables) at random positions: duplicates must share the first copy's address, everything else is disjoint, the total is the highest end.,
+      "hook on attempt_bottleneck_fix/allocate_indices asserts the iteration bound online; the same oracle wraps every allocator call of real compilations. LinearAlloc is also driven with duplicate constants (equal weight compression configs, equivalent lookup tables) at random positions: duplicates must share the first copy's address, everything else is disjoint, the total is the highest end.",
       "Reported total is accepted within the allocator's own alignment rounding (max_end <= total < max_end + granule); small scopes are bounded as stated in the evidence.",
       "runtime contract (oracle on return values) + online iteration-bound hook", "DESIGN.md 4/C05")
 
